@@ -92,15 +92,23 @@ def polynomial_from_attributes(
     )
 
     if coefficients:
-        try:
-            numpoly.cfrom_attributes(coefficients, poly.values.ravel())
-        except ValueError:
-            # the compiled kernel refuses read-only buffers, e.g. the views
-            # returned by `numpy.diagonal`; retry on writeable copies.
-            coefficients = [numpy.array(coeff) for coeff in coefficients]
-            numpoly.cfrom_attributes(coefficients, poly.values.ravel())
-
-    # for key, values in zip(poly.keys, coefficients):
-    #    poly.values[key] = values
+        # The compiled kernel copies the coefficients byte for byte and only
+        # knows a handful of dtypes: hand it arrays that already have the
+        # storage dtype, and leave every other dtype to numpy.
+        coefficients = [
+            coefficient.astype(poly.dtype, copy=False) for coefficient in coefficients
+        ]
+        if poly.dtype in numpoly.KERNEL_DTYPES:
+            try:
+                numpoly.cfrom_attributes(coefficients, poly.values.ravel())
+            except ValueError:
+                # the compiled kernel refuses read-only buffers, e.g. the views
+                # returned by `numpy.diagonal`; retry on writeable copies.
+                coefficients = [numpy.array(coeff) for coeff in coefficients]
+                numpoly.cfrom_attributes(coefficients, poly.values.ravel())
+        else:
+            values = poly.values
+            for key, coefficient in zip(poly.keys, coefficients):
+                values[key] = coefficient
 
     return poly
